@@ -184,7 +184,11 @@ int FileCacheStore::stat(CacheStat* stat) {
 int FileCacheStore::evict(off_t offset, size_t count, int flags) {
   int ret;
   if (static_cast<size_t>(-1) == count) {
-    ret = localFile_->ftruncate(offset);
+    // evicting from `offset` to the end must never grow the media file: its size is
+    // taken as the source file's size when the cache directory is opened again
+    struct stat st = {};
+    if (localFile_->fstat(&st) == 0 && offset >= st.st_size) ret = 0;
+    else ret = localFile_->ftruncate(offset);
   } else {
     #ifndef FALLOC_FL_KEEP_SIZE
     #define FALLOC_FL_KEEP_SIZE     0x01 /* default is extend size */
